@@ -550,6 +550,9 @@ func replay(p *Prop, path string, res *Result) int {
 		if os.Getenv("VERIF_VERBOSE") == "head" && len(c.TraceOut) > 400 {
 			lines = c.TraceOut[:400]
 		}
+		if os.Getenv("VERIF_VERBOSE") == "all" {
+			lines = c.TraceOut
+		}
 		for _, l := range lines {
 			fmt.Println("  " + l)
 		}
